@@ -271,8 +271,11 @@ class QintMulConst(L1):
 
 
 class QintMod(L1):
-    """QintImp.mod(tleft, const 2^k) - the documented case ("modulo only works with 2^n values"):
-    ensures bv(res) = bv(tleft) mod 2^k, res.T = the wider type."""
+    """QintImp.mod(tleft, tright).  Python: x % y.  The library implements x & (y - 1), which is x % y exactly when y is a power of two
+    ("Modulo operator only works with 2^n values", docs/source/supported.rst).
+      shape (TL, Tc, v)   literal modulus v:  v a power of two  -> ensures bv(res) = bv(tleft) mod v, res.T = the wider type
+                                              any other v (0, 3, 5, 6, ...) -> raises (outside the subset: rejected, never mistranslated)
+      shape (TL, TR, None) symbolic modulus:  ensures bv(res) = bv(tleft) mod bv(tright) wherever bv(tright) != 0   (Python raises for 0)"""
     name = "QintImp.mod"
 
     def fn(self):
@@ -281,29 +284,60 @@ class QintMod(L1):
     def shapes(self, tier):
         out = []
         for TL in QINT_TYPES:
-            for k in range(0, 9):
-                v = 2 ** k
+            for v in list(range(0, 18)) + [32, 64, 100, 128, 255, 256]:
                 out.append((TL, smallest_qint(v), v))
+        small = [t for t in QINT_TYPES if t.BIT_SIZE <= (4 if tier == "quick" else 8)]
+        for TL in small:
+            for TR in small:
+                out.append((TL, TR, None))
         return out
 
     def shape_str(self, shape):
+        if shape[2] is None:
+            return f"{tname(shape[0])},{tname(shape[1])}"
         return f"{tname(shape[0])},{tname(shape[1])}({shape[2]})"
 
     def instantiate(self, shape, vc):
         TL, Tc, v = shape
         x, zx = opnd(TL, "x")
+        if v is None:
+            r, zr = opnd(Tc, "r")
+            return TL.mod, [x, r], {}, dict(x=x, r=r, leaves={**zx, **zr}, opnds=[("x", TL), ("r", Tc)])
         return TL.mod, [x, Tc.const(v)], {}, dict(x=x, leaves=zx, opnds=[("x", TL)])
+
+    @staticmethod
+    def pow2(v):
+        return v > 0 and v & (v - 1) == 0
 
     def post(self, shape, ctx, value):
         TL, Tc, v = shape
+        if v is not None and not self.pow2(v):
+            return [Clause("rejected", False)]
         if not R(value):
             return [Clause("R", False, "structural")]
         T = wider(TL, Tc)
         W = T.BIT_SIZE
         cl = [Clause("R", True, "structural"), Clause("type", value[0] is T, "structural")]
         if len(value[1]) == W:
-            cl.append(Clause("value", bv(value[1]) == z3.URem(ext(bv(ctx["x"][1]), W), z3.BitVecVal(v, W))))
+            if v is None:
+                m = ext(bv(ctx["r"][1]), W)
+                cl.append(Clause("value", z3.Implies(m != 0, bv(value[1]) == z3.URem(ext(bv(ctx["x"][1]), W), m))))
+            else:
+                cl.append(Clause("value", bv(value[1]) == z3.URem(ext(bv(ctx["x"][1]), W), z3.BitVecVal(v, W))))
         return cl
+
+    def on_raise(self, shape, ctx, exc):
+        TL, Tc, v = shape
+        if v is not None and not self.pow2(v):
+            return [Clause("rejected", True)]
+        return [Clause("R", False, "structural")]
+
+    def region_ns(self, shape, ctx):
+        TL, Tc, v = shape
+        if v is None:
+            b = bv(ctx["r"][1])
+            return dict(n=TL.BIT_SIZE, m=Tc.BIT_SIZE, symbolic_modulus=True, b=b, b_pow2=z3.Or(*[b == (1 << k) for k in range(Tc.BIT_SIZE)]))
+        return dict(n=TL.BIT_SIZE, m=Tc.BIT_SIZE, symbolic_modulus=False, v=v)
 
 
 
